@@ -208,6 +208,10 @@ func runC09(c *Ctx) {
 		t := *rc
 		cfg.RealmTemplate = &t
 	}
+	// in a fifth of the other runs an operator replaces the realm while handshakes are pending:
+	// RemoveRealm, then AddRealm under the same URI with every secret rotated
+	swap := !template && g.Chance(1, 5)
+	swapYields, swapDelay := g.Intn(120), []time.Duration{0, 0, time.Millisecond, authTO / 2, authTO}[g.Intn(5)]
 	w, err := NewWorld(c.S, cfg)
 	if err != nil {
 		c.Res.Tooling = "NewRouter: " + err.Error()
@@ -219,6 +223,9 @@ func runC09(c *Ctx) {
 	if rc.RequireLocalAuth && !anon {
 		// the observer needs some way in: give it bob's ticket if ticket auth exists, else skip identity queries
 		obs = nil
+	}
+	if swap {
+		obs = nil // it would be thrown out with the realm
 	}
 	if obs != nil {
 		if !obs.Join() {
@@ -271,7 +278,7 @@ func runC09(c *Ctx) {
 		return methods[g.Intn(len(methods))]
 	}
 	for i := 0; i < nh; i++ {
-		p := plan{user: g.Pick("alice", "bob"), method: pickMethod(), kind: g.Weighted(8, 2, 2), forged: forge(), local: g.Chance(1, 4), yields: g.Intn(40)}
+		p := plan{user: g.Pick("alice", "bob"), method: pickMethod(), kind: g.Weighted(8, 2, 2), forged: forge(), local: g.Chance(1, 4) && !swap, yields: g.Intn(40)}
 		// kind 0: correct response; 1: wrong secret; 2: correct but possibly late
 		if p.kind == 2 {
 			p.delay = time.Duration(g.Range(0, 2*int(authTO/time.Millisecond))) * time.Millisecond
@@ -301,6 +308,41 @@ func runC09(c *Ctx) {
 	c.Res.Shape = fmt.Sprintf("%x", hashStr(c.Res.Sample)^c.Spec.SchedSeed)
 
 	configured := func(m string) bool { return contains(methods, m) }
+	swapDone := make(chan struct{})
+	if swap {
+		simrt.Go("op:swap", func() {
+			defer close(swapDone)
+			for k := 0; k < swapYields; k++ {
+				simrt.Yield("swapwait")
+			}
+			if swapDelay > 0 {
+				time.Sleep(swapDelay)
+			}
+			c.Fault("realm_replaced_during_handshakes")
+			w.R.RemoveRealm("r1")
+			ks2 := &c09KS{users: map[string]*c09User{}}
+			for name, u := range ks.users {
+				pub, priv, _ := sign.GenerateKey(rand.Reader)
+				ks2.users[name] = &c09User{name: name, role: u.role, ticket: "rotated-" + name, pw: "rotated-" + name, pub: pub, priv: priv}
+			}
+			var a2 []auth.Authenticator
+			for _, m := range methods {
+				switch m {
+				case "ticket":
+					a2 = append(a2, auth.NewTicketAuthenticator(ks2, authTO))
+				case "wampcra":
+					a2 = append(a2, auth.NewCRAuthenticator(ks2, authTO))
+				case "cryptosign":
+					a2 = append(a2, auth.NewCryptoSignAuthenticator(ks2, authTO))
+				}
+			}
+			if err := w.R.AddRealm(&router.RealmConfig{URI: "r1", Authenticators: a2, AllowDisclose: true}); err != nil {
+				c.Violf("AddRealm after RemoveRealm failed: %v", err)
+			}
+		})
+	} else {
+		close(swapDone)
+	}
 	done := make(chan int)
 	running := 0
 	for i, p := range plans {
@@ -527,8 +569,30 @@ func runC09(c *Ctx) {
 	for i := 0; i < running; i++ {
 		<-done
 	}
+	<-swapDone
 	simrt.WaitQuiescent("handshakes-done")
 	c.Res.NonTrivial = c.Res.Probes["replayed_captured_response"] > 0 || running > 1
+	if swap {
+		// Nobody knows the rotated secrets, and the new realm admits nobody anonymously: whoever
+		// is attached to it now - apart from trusted in-process sessions - was let in on the
+		// strength of an authentication against the realm that was removed.
+		o2 := w.NewSess("obs2", "r1", true, 64, nil)
+		if o2.Join() {
+			req := o2.NextReq()
+			o2.Send(&wamp.Call{Request: req, Options: wamp.Dict{}, Procedure: "wamp.session.list"})
+			res, _ := o2.Await(time.Second, func(m wamp.Message) bool { r, ok := m.(*wamp.Result); return ok && r.Request == req }).(*wamp.Result)
+			if res != nil {
+				c.Probe("realm_replaced_checked")
+				for _, id := range idsOf(arg0(res)) {
+					for _, o := range outs {
+						if o.welcome != nil && o.welcome.ID == id && !o.local {
+							c.Violf("session %d of %s is attached to the realm that replaced r1 although it authenticated (as %q by %s) against the removed realm's credentials only", id, o.who, o.user, o.method)
+						}
+					}
+				}
+			}
+		}
+	}
 
 	// ---- oracle ----
 	for _, o := range outs {
